@@ -262,13 +262,17 @@ func buildW8(g *prng.Rng, script, conc, bcIdx int) (ops []w8Op, nblocks int) {
 	}
 }
 
-func runW8(c *Ctx, ops []w8Op, conc int, cc, bc bool, mkSink func(k int) *gen.Sink, blocks *int64) (res w8Result, wr watchResult) {
+func runW8(c *Ctx, ops []w8Op, conc int, cc, bc bool, extra []lz4.Option, mkSink func(k int) *gen.Sink, blocks *int64) (res w8Result, wr watchResult) {
 	sink := mkSink(0)
 	res.sinks = []*gen.Sink{sink}
 	wr = c.Watch("concurrent-writer", func() {
 		w := lz4.NewWriter(sink)
 		if err := w.Apply(lz4.BlockSizeOption(lz4.Block64Kb), lz4.ConcurrencyOption(conc), lz4.ChecksumOption(cc), lz4.BlockChecksumOption(bc),
 			lz4.OnBlockDoneOption(func(n int) { atomic.AddInt64(blocks, 1) })); err != nil {
+			res.firstErr = err
+			return
+		}
+		if err := w.Apply(extra...); err != nil {
 			res.firstErr = err
 			return
 		}
@@ -320,7 +324,19 @@ func c08Writer(c *Ctx, i int64) {
 	var refBlocks int64
 	// content / block checksum vary with the case (a buffer released early is only visible when nothing re-reads it)
 	cc, bc := k%2 == 0, (k/5)%3 == 0
-	refRes, rw := runW8(c, ops, 1, cc, bc, func(int) *gen.Sink { return &gen.Sink{} }, &refBlocks)
+	// further options that change what the frame state looks like between frames: legacy frames (no
+	// descriptor at all) and a content size for which the header checksum byte is 0x00
+	var extra []lz4.Option
+	xname := "plain"
+	switch (k / 3) % 6 {
+	case 1:
+		extra, xname = []lz4.Option{lz4.LegacyOption(true)}, "legacy"
+	case 3:
+		extra, xname = []lz4.Option{lz4.SizeOption(hcZeroSize(lz4.Block64Kb, bc, cc))}, "size-with-zero-header-checksum"
+	case 5:
+		extra, xname = []lz4.Option{lz4.SizeOption(31337)}, "size"
+	}
+	refRes, rw := runW8(c, ops, 1, cc, bc, extra, func(int) *gen.Sink { return &gen.Sink{} }, &refBlocks)
 	if rw.Panicked || rw.Deadlocked || refRes.firstErr != nil {
 		c.Violation("reference-run-failed", fmt.Sprintf("sequential reference run of script %s failed: %v", w8Names[script], refRes.firstErr), nil)
 		return
@@ -353,11 +369,11 @@ func c08Writer(c *Ctx, i int64) {
 	}
 	var blocks int64
 	c.Tag(fmt.Sprintf("writer/%s/conc%d", w8Names[script], conc))
-	res, wr := runW8(c, ops, conc, cc, bc, mkSink, &blocks)
+	res, wr := runW8(c, ops, conc, cc, bc, extra, mkSink, &blocks)
 	mon.SetPerturbation(mon.PerturbOff, 0, 0)
 	events := mon.EventsStop()
 	det := func() map[string]interface{} {
-		return map[string]interface{}{"script": w8Names[script], "conc": conc, "blocks": nb, "perturbation": pname, "seed": seed, "errors": res.errs, "sink_fail_at": failAt, "content_checksum": cc, "block_checksum": bc}
+		return map[string]interface{}{"script": w8Names[script], "conc": conc, "blocks": nb, "perturbation": pname, "seed": seed, "errors": res.errs, "sink_fail_at": failAt, "content_checksum": cc, "block_checksum": bc, "other_options": xname}
 	}
 	c.Count("pipeline_runs", 1)
 	c.Count("hook_events", int64(len(events)))
@@ -429,7 +445,7 @@ func c08Writer(c *Ctx, i int64) {
 	}
 	// event log: FIFO and exactly-once
 	c08CheckEvents(c, events, script, conc, pname, det)
-	c.Cell(fmt.Sprintf("writer/%s/conc%d/blocks%d/cc%d/bc%d/%s", w8Names[script], conc, nb, b2i(cc), b2i(bc), pname[:4]))
+	c.Cell(fmt.Sprintf("writer/%s/conc%d/blocks%d/cc%d/bc%d/%s/%s", w8Names[script], conc, nb, b2i(cc), b2i(bc), xname, pname[:4]))
 	c.Cell("interleaving/" + strconv.FormatUint(hashEvents(events), 16))
 	if i%97 == 0 {
 		c.Sample(map[string]interface{}{"object": "Writer", "script": w8Names[script], "conc": conc, "blocks": nb, "perturbation": pname, "events": len(events)})
